@@ -1,7 +1,7 @@
 (* C18 — SQL store: record and outbox row commit together or not at all. Property theorems only.
    Model: coq/model/Sql.v — the statement sequence of sqlstore.Store inside one transaction over a committed database;
    MySQL is not modelled (the relational meaning of the SELECTs is that of the reference store). *)
-From WF Require Import model.Base model.Routing model.Stores model.Sql model.SqlWhere proofs.SqlProofs proofs.SqlWhereProofs.
+From WF Require Import model.Base model.Routing model.Stores model.Sql model.SqlWhere model.Timeouts model.SqlTimeout proofs.SqlProofs proofs.SqlWhereProofs proofs.TimeoutsProofs proofs.SqlTimeoutProofs.
 
 (* a failure at ANY position (begin, select, insert/update, event encoding, outbox insert, commit) commits nothing and
    returns the error *)
@@ -50,3 +50,17 @@ Theorem C18_grouping_matters :
   sql_cond val2 (fun _ => true) (wb_join (map wb_group cs ++ [[KNotNull FRun]])) (flat_map snd cs) = Some (false, []).
 Proof. exact unparenthesised_differs. Qed.
 Print Assumptions C18_grouping_matters.
+
+(* the SQL timeout store: each operation is one statement over the timeouts table (coq/model/SqlTimeout.v). Every operation
+   sequence gets the reference timer list's answers — created timers keep their fields and get increasing keys; Complete and
+   Cancel touch exactly the timer of that key (an unknown key: nothing); ListValid lists exactly the uncompleted, uncancelled
+   timers of the workflow and status that have expired — inside the domain: a ListValid is not asked at the exact expiry instant
+   of a stored timer (SQL says expire_at < now, the contract accepts either answer there), and List (not part of the property)
+   is compared only while no completed timer of the workflow is stored *)
+Theorem C18_sqltimeout_refines : forall ops m r, trel m r -> tsql_run_dom m ops = true -> tsql_run m ops = tref_run r ops.
+Proof. exact sqltimeout_refines. Qed.
+Print Assumptions C18_sqltimeout_refines.
+
+Theorem C18_sqltimeout_from_empty : forall ops, tsql_run_dom mtstore0 ops = true -> tsql_run mtstore0 ops = tref_run rtstore0 ops.
+Proof. intros ops. apply sqltimeout_refines, trel0. Qed.
+Print Assumptions C18_sqltimeout_from_empty.
